@@ -160,21 +160,44 @@ func gen(seed uint64, tier string, idx int) sim.CaseI {
 	nvals := 4
 	hot := wr.Intn(nvals)
 	hotArg := wr.Intn(5) // most operations that create new labels create the same ones
+	// Rounds: the r-th call of every worker is (mostly) the same kind of call
+	// on the same node of the same shared value, so that in every round several
+	// goroutines meet on one possibly lazily evaluated node; a quarter of the
+	// calls deviate, which gives pairs of different calls on the same node and
+	// of the same call on different nodes.
+	pathOf := func(sn int) string {
+		paths := snippetPaths[c.Snippets[sn]%len(snippets)]
+		p := fmt.Sprintf("f%d_S", c.Snippets[sn])
+		if sub := paths[wr.Intn(len(paths))]; sub != "" {
+			p += "." + sub
+		}
+		return strings.ReplaceAll(p, "_S", "_"+c.Suffix)
+	}
+	randOp := func() Op {
+		op := Op{Kind: opKinds[wr.Intn(len(opKinds))], Val: hot, Path: pathOf(wr.Intn(len(c.Snippets))), Arg: hotArg}
+		if wr.Bool(0.1) {
+			op.Path = "" // the root
+		}
+		if wr.Bool(0.25) {
+			op.Val = wr.Intn(nvals)
+		}
+		if wr.Bool(0.3) {
+			op.Arg = wr.Intn(5)
+		}
+		return op
+	}
+	var rounds []Op
+	for r := wr.Range(3, 8); r > 0; r-- {
+		rounds = append(rounds, randOp())
+	}
 	for w := 0; w < nw; w++ {
-		wk := Worker{Own: wr.Bool(0.12)}
-		for o := wr.Range(3, 10); o > 0; o-- {
-			sn := wr.Intn(len(c.Snippets))
-			paths := snippetPaths[c.Snippets[sn]%len(snippets)]
-			p := fmt.Sprintf("f%d_S", c.Snippets[sn])
-			if sub := paths[wr.Intn(len(paths))]; sub != "" {
-				p += "." + sub
-			}
-			op := Op{Kind: opKinds[wr.Intn(len(opKinds))], Val: hot, Path: strings.ReplaceAll(p, "_S", "_"+c.Suffix), Arg: wr.Intn(5)}
-			if wr.Bool(0.3) {
-				op.Val = wr.Intn(nvals)
-			}
-			if wr.Bool(0.7) {
-				op.Arg = hotArg
+		wk := Worker{Own: wr.Bool(0.1)}
+		for _, op := range rounds {
+			if wr.Bool(0.25) {
+				op = randOp()
+				if wr.Bool(0.5) {
+					op.Path, op.Val = rounds[wr.Intn(len(rounds))].Path, hot // another call on a node of some round
+				}
 			}
 			wk.Ops = append(wk.Ops, op)
 		}
@@ -190,13 +213,20 @@ func gen(seed uint64, tier string, idx int) sim.CaseI {
 	switch kr.Intn(10) {
 	case 0:
 		c.Spin.Policy = "sequential"
-	case 1, 2, 3, 4:
+	case 1, 2:
 		c.Spin.Policy = "pct"
 		c.Spin.PCTDepth = kr.Range(1, 3)
 		c.Spin.PCTSpan = []int{200, 2000, 20000}[kr.Intn(3)]
-	default:
+	case 3, 4:
 		c.Spin.Policy = "uniform"
 		c.Spin.SwitchP = []float64{0.002, 0.01, 0.05, 0.3}[kr.Intn(4)]
+	default:
+		// near lock-step: every task advances a yield point at a time, so that
+		// accesses of different tasks to the same lazily evaluated node fall
+		// between each other's synchronisation operations (the evaluator's own
+		// atomics and locks otherwise order most of them for the race detector)
+		c.Spin.Policy = "uniform"
+		c.Spin.SwitchP = []float64{0.6, 1.0}[kr.Intn(2)]
 	}
 	return c
 }
@@ -412,34 +442,87 @@ func raceLogSince(off int64) string {
 	return string(data[off:])
 }
 
-var frameRx = regexp.MustCompile(`(?m)^  ([^\s(]+)\(`)
+type frame struct {
+	fn   string
+	file string
+	line int
+}
 
-// raceKey names a race report by the innermost cue-lang frames of its two stacks.
+var srcCache = map[string][]string{}
+
+func srcLine(file string, line int) string {
+	ls, ok := srcCache[file]
+	if !ok {
+		data, _ := os.ReadFile(file)
+		ls = strings.Split(string(data), "\n")
+		srcCache[file] = ls
+	}
+	if line < 1 || line > len(ls) {
+		return "?"
+	}
+	return strings.Join(strings.Fields(ls[line-1]), " ")
+}
+
+// raceKey names a race report by its two call sites: for each of the two
+// stacks, the innermost frame outside the evaluator core (internal/core/adt)
+// — the function that reached into a shared vertex — together with the source
+// text of the line it was executing. Line numbers are left out, so the key
+// survives unrelated edits, and one call site has one name.
 func raceKey(report string) (key string, inHarness bool) {
-	var tops []string
+	var sides []string
 	for _, sec := range strings.Split(report, "\n\n") {
-		if !(strings.Contains(sec, " at 0x") || strings.Contains(sec, " by ")) || strings.HasPrefix(strings.TrimSpace(sec), "Goroutine") {
+		head := strings.TrimSpace(sec)
+		if i := strings.Index(head, "WARNING: DATA RACE\n"); i >= 0 {
+			head = strings.TrimSpace(head[i+len("WARNING: DATA RACE\n"):])
+		}
+		if !(strings.HasPrefix(head, "Write at") || strings.HasPrefix(head, "Read at") || strings.HasPrefix(head, "Previous write at") ||
+			strings.HasPrefix(head, "Previous read at") || strings.HasPrefix(head, "Atomic") || strings.HasPrefix(head, "Previous atomic")) {
 			continue
 		}
-		for _, m := range frameRx.FindAllStringSubmatch(sec, -1) {
-			fn := m[1]
-			if strings.HasPrefix(fn, "cuelang.org/go/") {
-				fn = strings.TrimSuffix(fn, "()")
-				tops = append(tops, fn)
+		var frames []frame
+		lines := strings.Split(sec, "\n")
+		for i := 0; i+1 < len(lines); i++ {
+			l := lines[i]
+			if strings.HasPrefix(l, "  ") && !strings.HasPrefix(l, "   ") && strings.HasPrefix(lines[i+1], "      ") {
+				fn := strings.TrimSpace(l)
+				if j := strings.LastIndex(fn, "("); j > 0 {
+					fn = fn[:j]
+				}
+				loc := strings.Fields(strings.TrimSpace(lines[i+1]))
+				f := frame{fn: fn}
+				if len(loc) > 0 {
+					if j := strings.LastIndex(loc[0], ":"); j > 0 {
+						f.file = loc[0][:j]
+						fmt.Sscan(loc[0][j+1:], &f.line)
+					}
+				}
+				frames = append(frames, f)
+			}
+		}
+		if len(frames) == 0 {
+			continue
+		}
+		if strings.Contains(frames[0].fn, "verifsim/sim.") || strings.Contains(frames[0].fn, "internal/simhook.") {
+			inHarness = true
+		}
+		site := frames[0]
+		for _, f := range frames {
+			if strings.Contains(f.fn, "verifsim/") {
+				break
+			}
+			site = f
+			if !strings.HasPrefix(f.fn, "cuelang.org/go/internal/core/adt.") {
 				break
 			}
 		}
-	}
-	for _, tp := range tops {
-		if strings.Contains(tp, "verifsim/sim.") || strings.Contains(tp, "internal/simhook.") {
-			inHarness = true
+		fn := strings.TrimPrefix(strings.TrimPrefix(site.fn, "cuelang.org/go/internal/core/"), "cuelang.org/go/")
+		sides = append(sides, fn+": "+srcLine(site.file, site.line))
+		if len(sides) == 2 {
+			break
 		}
 	}
-	if len(tops) > 2 {
-		tops = tops[:2]
-	}
-	sort.Strings(tops)
-	return strings.Join(tops, " | "), inHarness
+	sort.Strings(sides)
+	return strings.Join(sides, " | "), inHarness
 }
 
 func exec(t *testing.T, ci sim.CaseI, choices []uint32, keepLog bool) *sim.Outcome {
